@@ -17,12 +17,15 @@ theorem mul_exact (a b : Int) : numBin? .mul (.int a) (.int b) = some (.int (a *
 
 /-- n-ary `+` (`sum`, start 0) is the integer sum -/
 theorem sum_exact (xs : List Int) (acc : Int) :
-    numFold? .add (.int acc) (xs.map .int) = some (.int (xs.foldl (· + ·) acc)) := by
+    pySumInt acc (xs.map .int) = some (.int (xs.foldl (· + ·) acc)) := by
   induction xs generalizing acc with
   | nil => rfl
   | cons x xs ih =>
-    simp only [List.map_cons, numFold?, List.foldl_cons] at ih ⊢
+    simp only [List.map_cons, pySumInt, asInt?, List.foldl_cons]
     exact ih (acc + x)
+
+/-- `sum` of integers never enters the floating-point phase -/
+theorem pySum_ints (xs : List Int) : pySum? (xs.map .int) = some (.int (xs.foldl (· + ·) 0)) := sum_exact xs 0
 
 /-- n-ary `*` (`reduce`) is the integer product -/
 theorem prod_exact (xs : List Int) (acc : Int) :
